@@ -31,7 +31,7 @@ claim('C02', 'sibling comparison of entry points over resolved MIR (parameter-us
       'Decides structural necessary clauses: gradual constructor and one-shot calculation of each mode start from the same converted '
       'and preprocessed map (same convert_ref(mode, mods), same &mut Beatmap preprocessors and direct map writes under the same guards); both consult the '
       'same Difficulty settings; gradual count state is written only by its delta function / table; no (x/rate)*rate round trip feeds a truncation; a mode '
-      'whose skills read a forward neighbour does not cut the one-shot object list at passed_objects; (catch) the counting mode handed into the shared conversion is write-only there and same-named counters of the regular and the gradual count agree in width and update. Equality of values per prefix is numeric and not decided.',
+      'whose skills read a forward neighbour does not cut the one-shot object list at passed_objects; (catch) the counting mode handed into the shared conversion is write-only there and same-named counters of the regular and the gradual count agree in width and update; both feed each skill under the same conditions and prepare the calculation with the same numeric expressions (skeletons over (difficulty, MAP)). Equality of values per prefix is numeric and not decided.',
       'exported MIR + resolved call graph; helper following bounded at depth 3', 'DESIGN.md §5 C02')
 claim('C07', 'sibling decision-tree comparison, arm summaries of GameMode switches, parameter-use classification, provenance of forwarded fields',
       'Decides the dispatch/conversion shape for all entry points, arms and paths: convert_ref/convert_mut path sets equal, '
@@ -49,7 +49,7 @@ claim('C05', 'loop classification over MIR natural loops (float-accumulator abso
       'IEEE-754 absorption argument; f64 accumulators accepted under the decoder magnitude bound; one frozen guard exception '
       '(find_repetition_interval, acyclic prev chain)', 'DESIGN.md §5 C05')
 claim('C12', 'provenance with closure / Option-combinator expansion (clamp reachability), sibling field-map comparison',
-      'Decides six clauses: Performance::state hands over every field of the ScoreState; calculate() = generate_state() + calculator; provided misses and provided combo reach the state only '
+      'Decides seven clauses: Performance::state hands over every field of the ScoreState; object counts are read off the converted map only after its in-place rewrites; calculate() = generate_state() + calculator; provided misses and provided combo reach the state only '
       'below min(_, bound) in every mode; the 8 ScoreState conversions are mutually inverse permutations; state(), the write-back of '
       'generate_state() and the single setters agree on one field map (24 rows); no remainder in generate_state takes the misses off the object count '
       'more than once (linear forms over object count and clamped misses). The rest of the remainder arithmetic is not decided.',
@@ -72,7 +72,7 @@ claim('C11', 'unsafe-operation inventory from MIR with one obligation rule per k
 claim('C03', 'provenance of the receiver chain in nth() and of the constructor arguments',
       'Decides the flow clauses: gradual performance constructors build the inner gradual difficulty from exactly (difficulty, map); nth(state, n) '
       'feeds n to the inner iterator, the caller state unmodified into .state(), the captured Difficulty into .difficulty() and the prefix '
-      'attributes into .performance(). Equality with the one-shot value is numeric and not decided.',
+      'attributes into .performance(); the inner gradual difficulty feeds the skills as the one-shot calculation does and is prepared with the same numeric expressions. Equality with the one-shot value is numeric and not decided.',
       'exported MIR; next/last delegation is checked by C15-R1', 'DESIGN.md §5 C03')
 claim('C04', 'provenance of attribute sources, who-may-write on calculator attributes, pass-through check of 32 conversions',
       'Decides the flow clauses: Map-case attributes come from self.difficulty.calculate_for_mode::<own mode>(own map); the attributes embedded in a '
@@ -102,17 +102,17 @@ claim('C15', 'delegation shape check (single call, parameter pass-through, const
 claim('C16', 'evaluated associated constants at use sites (loop step of the section accumulator), provenance of exported peaks, sibling preprocessing rule',
       'Decides: the section length each of the 9 skills really advances by equals its mode\'s published SECTION_LEN (inherent shadowing resolved by rustc, '
       'not by name); export and aggregation both close the open section through get_current_strain_peaks; strains() runs the same '
-      'DifficultyValues::calculate on the same preprocessed map as difficulty(); the section operations of every process() depend on object times and the section end only, never on the skill\'s own strain state; whoever feeds several skills feeds them under the same conditions. Finiteness and the numeric re-aggregation identity are not decided.',
+      'DifficultyValues::calculate on the same preprocessed map as difficulty(); the section operations of every process() depend on object times and the section end only, never on the skill\'s own strain state; whoever feeds several skills feeds them under the same conditions; difficulty() and strains() hand shared callees the same numeric expressions. Finiteness and the numeric re-aggregation identity are not decided.',
       'exported MIR + const evaluation', 'DESIGN.md §5 C16')
 claim('C17', 'provenance from builder output to calculator fields; setter/getter/output slot triangle by read-set of self fields',
       'Decides the flow clauses: build() embeds hit_windows(); calculators copy AR/HP/hit windows from the builder configured with the converted map and '
       'the Difficulty parameter; the builder\'s difficulty() takes every value from the same-named getter; each public setter feeds exactly the public '
-      'output of its name; HR/EZ-dependent scaling of a slot value happens only where that slot\'s with_mods() is known false; no difficulty entry point returns attributes that skipped the calculation. '
+      'output of its name; HR/EZ-dependent scaling of a slot value happens only where that slot\'s with_mods() is known false; no difficulty entry point returns attributes that skipped the calculation; the OD accessor of the osu! attributes is the builder\'s conversion of the hit window. '
       'Monotonicity / numeric round trip / HR-EZ ordering are not decided.', 'exported MIR', 'DESIGN.md §5 C17')
 claim('C18', 'struct-delta provenance of setters, arm summaries of 92 dispatch arms against tcx method tables, doc-table parsing, field-map comparison',
       'Decides: all 31 mode setters forward their own parameters to the same-named Difficulty setter; every Performance enum arm forwards per rename table or '
       'is a no-op exactly when the payload type has no such method; clamp constants equal every documented Minimum/Maximum table; inspect / '
-      'into_difficulty are field-complete; setter, getter and inspect agree on one private slot; calculators configure attribute builders through .difficulty(..) with no setting setter before it. "Irrelevant setter leaves result untouched" beyond the '
+      'into_difficulty are field-complete; setter, getter and inspect agree on one private slot; calculators configure attribute builders through .difficulty(..) with no setting setter before it; a setting whose Performance arm is a no-op for a mode is never read by that mode\'s code. "Irrelevant setter leaves result untouched" beyond the '
       'no-op arms is not decided.', 'doc comments as the documented bounds', 'DESIGN.md §5 C18')
 claim('C19', 'who-may-write, dominator/post-dominator pairing of sibling vector edits, must-pass-through to a time sort',
       'Decides the structural part: catch convert touches only mode/is_convert; taiko convert edits objects and sounds in lock-step (same multiset, same paths, '
